@@ -103,17 +103,17 @@ ExecFFStmt(st, v, n) ==
 ExecFFStmts(ss, v, n) == IF ss = <<>> THEN n ELSE ExecFFStmts(Tail(ss), v, ExecFFStmt(Head(ss), v, n))
 
 ---------------------------------------------------------------------------
-(* Syntactic footprints: sets of <<cell, bit>>.  Both branches of an `if`,  *)
+(* Syntactic footprints: sets of <<signal, bit>> (signal identity, not storage cell).  Both branches of an `if`,  *)
 (* the whole array for a variable index -- the convention pymtl3 documents. *)
 
-SigBits(D, s) == {<<D.sigs[s].rep, b>> : b \in 0 .. D.sigs[s].w - 1}
+SigBits(D, s) == {<<s, b>> : b \in 0 .. D.sigs[s].w - 1}
 ArrBits(D, arr) == UNION {SigBits(D, arr[i]) : i \in DOMAIN arr}
 
 RECURSIVE ERefs(_, _)
 ERefs(D, e) ==
-  CASE e.k = "sig"  -> {<<D.sigs[e.s].rep, b>> : b \in e.lo .. e.hi - 1}
+  CASE e.k = "sig"  -> {<<e.s, b>> : b \in e.lo .. e.hi - 1}
     [] e.k = "lit"  -> {}
-    [] e.k = "idx"  -> UNION {{<<D.sigs[e.arr[j]].rep, b>> : b \in e.lo .. e.hi - 1} : j \in DOMAIN e.arr}
+    [] e.k = "idx"  -> UNION {{<<e.arr[j], b>> : b \in e.lo .. e.hi - 1} : j \in DOMAIN e.arr}
                         \cup ERefs(D, e.i)
     [] e.k \in {"not", "zext", "trunc", "sext", "red"} -> ERefs(D, e.a)
     [] e.k \in {"bin", "cmp"} -> ERefs(D, e.a) \cup ERefs(D, e.b)
@@ -124,14 +124,18 @@ RECURSIVE StmtsR(_, _), StmtsW(_, _)
 StmtR(D, st) == CASE st.k = "as"  -> ERefs(D, st.e)
                   [] st.k = "asi" -> ERefs(D, st.e) \cup ERefs(D, st.i)
                   [] st.k = "if"  -> ERefs(D, st.c) \cup StmtsR(D, st.th) \cup StmtsR(D, st.el)
-StmtW(D, st) == CASE st.k = "as"  -> {<<D.sigs[st.t.s].rep, b>> : b \in st.t.lo .. st.t.hi - 1}
+StmtW(D, st) == CASE st.k = "as"  -> {<<st.t.s, b>> : b \in st.t.lo .. st.t.hi - 1}
                   [] st.k = "asi" -> ArrBits(D, st.arr)
                   [] st.k = "if"  -> StmtsW(D, st.th) \cup StmtsW(D, st.el)
 StmtsR(D, ss) == UNION {StmtR(D, ss[i]) : i \in DOMAIN ss}
 StmtsW(D, ss) == UNION {StmtW(D, ss[i]) : i \in DOMAIN ss}
 
-RBits(D, b) == StmtsR(D, D.steps[b].stmts)
-WBits(D, b) == StmtsW(D, D.steps[b].stmts)
+(* A net-propagation step reads its writer object and writes every member object (nr / nw: lists  *)
+(* of <<signal, lo, hi>>), also the members that share the writer's storage cell and need no copy  *)
+(* in this model: the statement orders blocks against the net step as a unit.                      *)
+ViewBits(vs) == UNION {{<<vs[i][1], b>> : b \in vs[i][2] .. vs[i][3] - 1} : i \in DOMAIN vs}
+RBits(D, b) == StmtsR(D, D.steps[b].stmts) \cup ViewBits(D.steps[b].nr)
+WBits(D, b) == StmtsW(D, D.steps[b].stmts) \cup ViewBits(D.steps[b].nw)
 
 Steps(D)     == DOMAIN D.steps
 CombSteps(D) == {b \in Steps(D) : D.steps[b].kind \in {"comb", "net"}}
